@@ -8,3 +8,6 @@ import VirtioVerif.Model.Blk
 import VirtioVerif.Lemmas.AbsQueue
 import VirtioVerif.Spec.Blk
 import VirtioVerif.Props.C14
+import VirtioVerif.Model.Net
+import VirtioVerif.Spec.Net
+import VirtioVerif.Props.C16
